@@ -53,8 +53,9 @@ func (c *Ctx) checkArm(rule, key string, fn *ssa.Function, spec armSpec) {
 	pos := p.Pos(fn.Pos())
 	rcs := p.successResults(fn)
 	got := map[string]bool{}
-	for _, rc := range rcs {
-		got[rc.Value] = true
+	for i := range rcs {
+		rcs[i].Value = canonConstructors(rcs[i].Value)
+		got[rcs[i].Value] = true
 	}
 	missing, extra := diffSets(got, setOf(spec.Results))
 	if len(missing)+len(extra) > 0 {
@@ -96,4 +97,17 @@ func (c *Ctx) checkArm(rule, key string, fn *ssa.Function, spec armSpec) {
 			}
 		}
 	}
+}
+
+// canonConstructors: the empty-array value written as the literal, through NewValue or through NewArray
+// is one thing in an oracle row (EMPTYARRAY)
+func canonConstructors(r string) string {
+	for _, form := range []string{
+		"lang.Value{Tag: ValueArray, Array: [][:0], Proto: lang.getArrayPrototype()}",
+		"lang.NewValue([][:0])",
+		"lang.NewArray()",
+	} {
+		r = strings.ReplaceAll(r, form, "EMPTYARRAY")
+	}
+	return r
 }
